@@ -17,6 +17,7 @@ RULE = ("cases = (PDU kind, header configuration, parameter set) for all 8 kinds
 TRUSTED = ["CPython 3.12", "spverif.ref.cfdp.decode_header for the raw inspectors"]
 ASSUMPTIONS = ["the packed octets come from the reference encoder (C06/C07 establish that the library packs the same octets)"]
 
+ISO = C.Isolation()
 ACCESSOR = {"eof": "to_eof_pdu", "finished": "to_finished_pdu", "ack": "to_ack_pdu", "metadata": "to_metadata_pdu", "nak": "to_nak_pdu",
             "prompt": "to_prompt_pdu", "keep_alive": "to_keep_alive_pdu", "file_data": "to_file_data_pdu"}
 
@@ -55,6 +56,8 @@ def k_factory(ctx, kind, cfg, p):
     ctx.check("factory.from_raw", ok2 and bytes(rp) == raw, "repack_differs", feat, case)
     got = C.norm_params(kind, C.get_params(kind, pdu))
     ctx.check("factory.from_raw", got == C.norm_params(kind, p), "params_differ", f"{feat}/{C.diff_keys(got, C.norm_params(kind, p))}", case, observed=got)
+    ISO.remember(pdu, raw, kind)
+    ISO.recheck(ctx, "factory.decoded_objects_independent", case)
     # holder
     ok, holder = attempt(X.PduFactory.from_raw_to_holder, raw)
     if not ctx.check("holder", ok, "from_raw_to_holder_raised", feat, case, error=repr(holder)):
@@ -115,5 +118,5 @@ def run(ctx):
 def conclude(ctx):
     ctx.require(len(ctx.tables.get("kind_x_config", {})) >= 8 * 128, "kind x configuration table incomplete")
     ctx.require(len(ctx.tables.get("accessor_matrix", {})) == 64, "accessor matrix incomplete")
-    for m in ("factory.from_raw", "inspect.pdu_type", "inspect.is_file_directive", "inspect.pdu_directive_type", "holder", "holder.accessor_matrix"):
+    for m in ("factory.from_raw", "factory.decoded_objects_independent", "inspect.pdu_type", "inspect.is_file_directive", "inspect.pdu_directive_type", "holder", "holder.accessor_matrix"):
         ctx.require(ctx.monitors.get(m, {}).get("evaluations", 0) > 0, f"monitor {m} never evaluated")
